@@ -254,10 +254,16 @@ func checkC11(p *load.Program, r *kit.Report) {
 			if w.Field != invalidF {
 				continue
 			}
-			if callOf(w.Val, 0) != nil && kit.CallID(callOf(w.Val, 0)) == H+".loadInvalidHashes" {
+			if kit.DependsOn(w.Val, func(v ssa.Value) bool {
+				c := callOf(v, 0)
+				return c != nil && kit.CallID(c) == H+".loadInvalidHashes"
+			}) {
 				bad = ""
 			}
-			if c := isCallTo(w.Val, "builtin.append"); c != nil && kit.DependsOn(c.Call.Args[1], func(v ssa.Value) bool { return loadOfField(v, cfgF) }) {
+			if kit.DependsOn(w.Val, func(v ssa.Value) bool {
+				c, ok := v.(*ssa.Call)
+				return ok && kit.CallID(c) == "builtin.append" && kit.DependsOn(c.Call.Args[1], func(x ssa.Value) bool { return loadOfField(x, cfgF) })
+			}) {
 				merged = true
 			}
 		}
